@@ -65,6 +65,7 @@ var _ utils.PriorityQueue
 //@ requires [vertex] vertex != nil && vertex.deleted == 0 && vertex.level >= 0 && vertex.level < 2147483648
 //@ ensures [stored-inv] old(wfStored(this)) ==> wfStored(this)
 //@ ensures [exists] old(live(this, vertex.id)) ==> err == ItemAlreadyExistsError && this.len == old(this.len) && this.bytesSize == old(this.bytesSize) && vertexOf(this, vertex.id) == old(vertexOf(this, vertex.id)) && live(this, vertex.id)
+//@ ensures [exists-untouched] old(live(this, vertex.id)) ==> old(len(shard(this, vertex.id))) >= 1 && len(shard(this, vertex.id)) == old(len(shard(this, vertex.id)))
 //@ ensures [stored] !old(live(this, vertex.id)) ==> isnil(err) && live(this, vertex.id) && vertexOf(this, vertex.id) == vertex
 //@ ensures [counters] !old(live(this, vertex.id)) ==> this.len == (old(this.len) + 1) % 18446744073709551616 && this.bytesSize == (old(this.bytesSize) + bytesOf(vertex)) % 18446744073709551616
 //@ ensures [others] forall j uuid.UUID :: j != vertex.id ==> live(this, j) == old(live(this, j)) && vertexOf(this, j) == old(vertexOf(this, j))
@@ -76,7 +77,9 @@ var _ utils.PriorityQueue
 //@ requires [shards] wfShards(this)
 //@ requires [stored] wfStored(this)
 //@ ensures [absent] !old(live(this, id)) ==> err == ItemNotFoundError && ret0 == nil && this.len == old(this.len) && this.bytesSize == old(this.bytesSize) && !live(this, id)
+//@ ensures [absent-untouched] !old(live(this, id)) ==> len(shard(this, id)) == old(len(shard(this, id)))
 //@ ensures [removed] old(live(this, id)) ==> isnil(err) && ret0 == old(vertexOf(this, id)) && ret0 != nil && !live(this, id) && ret0.deleted == 1
+//@ ensures [was-nonempty] old(live(this, id)) ==> old(len(shard(this, id))) >= 1
 //@ ensures [counters] old(live(this, id)) ==> (this.len + 1) % 18446744073709551616 == old(this.len) && (this.bytesSize + bytesOf(ret0)) % 18446744073709551616 == old(this.bytesSize)
 //@ ensures [others] forall j uuid.UUID :: j != id ==> live(this, j) == old(live(this, j)) && vertexOf(this, j) == old(vertexOf(this, j))
 //@ ensures [tombstone-only] forall v *hnswVertex :: v != ret0 ==> v.deleted == old(v.deleted)
@@ -119,7 +122,7 @@ var _ utils.PriorityQueue
 
 //@ func index.newHnswVertex
 //@ props C02 C01
-//@ safety C01
+//@ safety UNCLAIMED
 //@ requires [level] level >= 0 && level < 2147483648
 //@ ensures [fresh] ret != nil && fresh(ret)
 //@ ensures [fields] ret.id == id && ret.vector == vector && ret.metadata == metadata && ret.level == level && ret.deleted == 0
@@ -127,47 +130,93 @@ var _ utils.PriorityQueue
 
 //@ func (*index.hnswVertex).setLevel
 //@ props C02 C01
-//@ safety C01
+//@ safety UNCLAIMED
 //@ requires [level] level >= 0 && level < 2147483648
 //@ ensures [sizes] len(this.edges) == level + 1 && len(this.edgeMutexes) == level + 1 && fresh(this.edges)
 //@ modifies this.edges, this.edgeMutexes
 
+// ---------------------------------------------------------------------------------------------
+// C01: the entry point. Every search and insert starts from it, and Search puts it into the result beam unconditionally, so
+//   epLive:    a non-nil entry point is never a tombstone (else searches return a removed item), and
+//   epPresent: the entry point is nil only if nothing is stored (else a search over a non-empty index returns nothing and
+//              the next insert starts a second, disconnected graph).
+//@ spec epv(ix *Hnsw) *hnswVertex = asptr(ix.entrypoint, hnswVertex)
+//@ spec allEmpty(ix *Hnsw) bool = forall s int :: 0 <= s && s < 16 ==> len(ix.vertices[s]) == 0
+//@ spec epLive(ix *Hnsw) bool = ix.entrypoint != nil ==> istype(epv(ix), hnswVertex) && allocated(epv(ix)) && epv(ix).deleted != 1
+//@ spec epPresent(ix *Hnsw) bool = ix.entrypoint == nil ==> allEmpty(ix)
+
+//@ func (*index.hnswVertex).isDeleted
+//@ props C01 C02
+//@ pure
+//@ ensures [flag] ret == (this.deleted == 1)
+//@ modifies nothing
+
+// any stored vertex, or nil exactly when nothing is stored
+//@ func (*index.Hnsw).anyVertex
+//@ props C01
+//@ requires [shards] wfShards(this) && wfStored(this)
+//@ ensures [C01 none-only-if-empty] ret == nil ==> allEmpty(this)
+//@ ensures [C01 stored] ret != nil ==> ret.deleted == 0 && live(this, ret.id) && vertexOf(this, ret.id) == ret
+//@ modifies nothing
+//@ loop 1
+//@ invariant [empty-so-far] 0 - 1 <= rangeindex && rangeindex < 16 && forall s int :: 0 <= s && s <= rangeindex ==> len(this.vertices[s]) == 0
+
 // graph maintenance touches links only: never the shard maps, the counters, or a vertex's id/vector/metadata/level/deleted
+// C01: the greedy descent only ever moves to a neighbour that is not a tombstone, and the distance it carries along is the
+// true distance of the vertex it returns
 //@ func (*index.Hnsw).greedyClosestNeighbor
 //@ props C02 C01
-//@ safety C01
+//@ safety UNCLAIMED
+//@ requires [C01 start] entrypoint != nil && minDistance == Distance(this.space, query, entrypoint.vector)
+//@ ensures [C01 ends-live] ret0 != nil && (old(entrypoint.deleted != 1) ==> ret0.deleted != 1)
+//@ ensures [C01 true-distance] ret1 == Distance(this.space, query, ret0.vector)
 //@ modifies nothing
+//@ loop 1
+//@ invariant [C01 current-live] entrypoint != nil && (old(entrypoint0.deleted != 1) ==> entrypoint.deleted != 1) && minDistance == Distance(this.space, query, entrypoint.vector)
+//@ loop 2
+//@ invariant [C01 current-live] entrypoint != nil && (old(entrypoint0.deleted != 1) ==> entrypoint.deleted != 1)
+//@ invariant [C01 candidate] (closestNeighbor != nil ==> closestNeighbor.deleted != 1 && minDistance == Distance(this.space, query, closestNeighbor.vector)) && (closestNeighbor == nil ==> minDistance == Distance(this.space, query, entrypoint.vector))
 
 // C12 (memory proportional to the data): the search parameters that size allocations are configuration constants or
 // bounded by the number of stored items - never a number taken from a request. memcap() is "what fits in memory".
 //@ spec cfgSized(ix *Hnsw) bool = ix.config != nil && 0 <= ix.config.ef && ix.config.ef <= memcap() && 0 <= ix.config.efConstruction && ix.config.efConstruction <= memcap() && 0 <= ix.config.mMax0 && ix.config.mMax0 <= 65536
 
+// C01: an item enters the beam (candidate and result queues) only with the true distance between the query and its vector,
+// and only if it is not a tombstone at that moment (the entry point by precondition, every other vertex by the isDeleted test)
 //@ func (*index.Hnsw).searchLevel
 //@ props C02 C01
-//@ safety C01
+//@ safety UNCLAIMED
 //@ allocbound C12
+//@ at call utils.NewPriorityQueueItem
+//@ requires [C01 true-score] $arg0 == Distance(this.space, query, $arg1.(*hnswVertex).vector)
+//@ requires [C01 not-a-tombstone] $arg1.(*hnswVertex) != nil && ($arg1.(*hnswVertex) == entrypoint || $arg1.(*hnswVertex).deleted != 1)
+//@ end
 //@ requires [C12 ef-fits] 0 <= ef && ef <= memcap() && this.config != nil && 0 <= this.config.mMax0 && this.config.mMax0 <= 65536
 //@ modifies cells[utils.minPriorityQueue], cells[utils.maxPriorityQueue], mem[*utils.PriorityQueueItem]
 
 //@ func (*index.Hnsw).selectNeighbors
 //@ props C02 C01
-//@ safety C01
+//@ safety UNCLAIMED
 //@ modifies cells[utils.minPriorityQueue], cells[utils.maxPriorityQueue], mem[*utils.PriorityQueueItem]
 
 //@ func (*index.Hnsw).selectNeighborsHeuristic
 //@ props C02 C01
-//@ safety C01
+//@ safety UNCLAIMED
+//@ at call utils.NewPriorityQueueItem
+//@ requires [C01 true-score] $arg0 == Distance(this.space, query, $arg1.(*hnswVertex).vector)
+//@ requires [C01 not-a-tombstone] $arg1.(*hnswVertex) != nil && $arg1.(*hnswVertex).deleted != 1
+//@ end
 //@ modifies cells[utils.minPriorityQueue], cells[utils.maxPriorityQueue], mem[*utils.PriorityQueueItem]
 
 //@ func (*index.Hnsw).pruneNeighbors
 //@ props C02 C01
-//@ safety C01
+//@ safety UNCLAIMED
 //@ modifies mem[hnswEdgeSet], cells[utils.minPriorityQueue], cells[utils.maxPriorityQueue], mem[*utils.PriorityQueueItem]
 
 // C02: Insert against the finite-map specification
 //@ func (*index.Hnsw).Insert
-//@ props C02 C04
-//@ safety C01
+//@ props C02 C04 C01
+//@ safety UNCLAIMED
 //@ allocbound C12
 //@ requires [C12 sized] cfgSized(this)
 //@ requires [shards] wfShards(this)
@@ -179,12 +228,17 @@ var _ utils.PriorityQueue
 //@ ensures [immutable] forall v *hnswVertex :: old(allocated(v)) ==> v.id == old(v.id) && v.vector == old(v.vector) && v.metadata == old(v.metadata) && v.deleted == old(v.deleted)
 //@ ensures [shards] wfShards(this)
 //@ ensures [stored-inv] old(wfStored(this)) ==> wfStored(this)
+//@ ensures [C01 entrypoint-live] old(epLive(this)) ==> epLive(this)
+//@ ensures [C01 entrypoint-set] isnil(err) ==> this.entrypoint != nil
+//@ ensures [C01 entrypoint-present] old(epPresent(this)) ==> epPresent(this)
 //@ modifies this.len, this.bytesSize, this.entrypoint, map(shard(this, id)), mem[hnswEdgeSet], maps[hnswEdgeSet], cells[utils.minPriorityQueue], cells[utils.maxPriorityQueue], mem[*utils.PriorityQueueItem]
+//@ loop 1
+//@ invariant [C01 descent] entrypoint != nil && vertex != nil && minDistance == Distance(this.space, vertex.vector, entrypoint.vector)
 
 // C02: Remove against the finite-map specification
 //@ func (*index.Hnsw).Remove
-//@ props C02 C04
-//@ safety C01
+//@ props C02 C04 C01
+//@ safety UNCLAIMED
 //@ requires [shards] wfShards(this)
 //@ requires [stored] wfStored(this)
 //@ ensures [absent] !old(live(this, id)) ==> err == ItemNotFoundError && this.len == old(this.len) && this.bytesSize == old(this.bytesSize) && !live(this, id)
@@ -194,7 +248,13 @@ var _ utils.PriorityQueue
 //@ ensures [immutable] forall v *hnswVertex :: old(allocated(v)) ==> v.id == old(v.id) && v.vector == old(v.vector) && v.metadata == old(v.metadata) && (v != old(vertexOf(this, id)) ==> v.deleted == old(v.deleted))
 //@ ensures [shards] wfShards(this)
 //@ ensures [stored-inv] wfStored(this)
+//@ ensures [C01 entrypoint-live] old(epLive(this)) ==> epLive(this)
+//@ ensures [C01 entrypoint-present] old(epPresent(this)) ==> epPresent(this)
 //@ modifies this.len, this.bytesSize, this.entrypoint, map(shard(this, id)), type hnswVertex.deleted, mem[hnswEdgeSet], maps[hnswEdgeSet], cells[utils.minPriorityQueue], cells[utils.maxPriorityQueue], mem[*utils.PriorityQueueItem]
+//@ loop 1
+//@ invariant [C01 candidate-live] (closestNeighbor != nil ==> istype(closestNeighbor, hnswVertex) && allocated(closestNeighbor) && closestNeighbor.deleted != 1) && wfShards(this) && wfStored(this) && vertex != nil && vertex.deleted == 1 && this.entrypoint == currEntrypoint
+//@ loop 2
+//@ invariant [C01 candidate-live] (closestNeighbor != nil ==> istype(closestNeighbor, hnswVertex) && allocated(closestNeighbor) && closestNeighbor.deleted != 1) && wfShards(this) && wfStored(this) && vertex != nil && vertex.deleted == 1 && this.entrypoint == currEntrypoint
 
 // BytesSize mixes the exact data counter with a floating-point link estimate; only its frame is used (C17).
 //@ func (*index.Hnsw).BytesSize
@@ -203,12 +263,22 @@ var _ utils.PriorityQueue
 //@ pure
 //@ modifies nothing
 
+// C01: Search starts from a live entry point, descends through live vertices only, hands a live vertex to the beam search,
+// and returns at most k items (fewer only if the beam holds fewer)
 //@ func (*index.Hnsw).Search
 //@ props C01 C09
-//@ safety C01
+//@ safety UNCLAIMED
 //@ allocbound C12
 //@ requires [C12 sized] cfgSized(this) && this.len <= memcap()
+//@ at call Hnsw).searchLevel
+//@ requires [C01 beam-entry-live] $arg2 != nil && $arg2.deleted != 1
+//@ end
+//@ requires [C01 entry] epLive(this)
+//@ ensures [C01 atmostk] isnil(ret1) ==> len(ret0) <= k
+//@ ensures [never-nil-nil] isnil(ret1) ==> !isnil(ret0)
 //@ modifies cells[utils.minPriorityQueue], cells[utils.maxPriorityQueue], mem[*utils.PriorityQueueItem]
+//@ loop 1
+//@ invariant [C01 descent-live] entrypoint != nil && entrypoint.deleted != 1 && minDistance == Distance(this.space, query, entrypoint.vector)
 
 // ---------------------------------------------------------------------------------------------
 // C08: snapshots. Proved here: fixed-size tokens are read completely whatever the reader does (Load never calls Read on
@@ -323,7 +393,7 @@ var _ utils.PriorityQueue
 //@ invariant [count] 0 <= edgesCount && edgesCount <= $count
 
 //@ func (*index.Hnsw).Load
-//@ props C08 C04
+//@ props C08 C04 C01
 //@ safety UNCLAIMED
 //@ ghost gbytes uint64 = 0
 //@ at call Reader.Read
@@ -335,6 +405,7 @@ var _ utils.PriorityQueue
 //@ requires [wf] wfShards(this) && this.config != nil && !isnil(r)
 //@ ensures [C08 fresh-shards] isnil(ret) ==> forall s int :: 0 <= s && s < 16 ==> this.vertices[s] != nil && fresh(this.vertices[s])
 //@ ensures [C08 counters-from-stream] isnil(ret) ==> this.bytesSize == gbytes
+//@ ensures [C01 entry-live] isnil(ret) ==> epLive(this)
 //@ modifies this.len, this.bytesSize, this.vertices, this.entrypoint, this.size, this.space, fields(this.config), maps[hnswEdgeSet], mem[hnswEdgeSet]
 //@ loop 1
 //@ invariant [fresh-prefix] forall s int :: 0 <= s && s <= rangeindex ==> this.vertices[s] != nil && fresh(this.vertices[s])
@@ -343,8 +414,10 @@ var _ utils.PriorityQueue
 //@ invariant [fresh-prefix] forall s int :: 0 <= s && s <= rangeindex ==> this.vertices[s] != nil && fresh(this.vertices[s]) && allocated(this.vertices[s])
 //@ invariant [distinct] forall s int, t int :: 0 <= s && s < t && t <= rangeindex ==> this.vertices[s] != this.vertices[t]
 //@ invariant [counter] this.bytesSize == gbytes && this.config != nil
+//@ invariant [C01 loaded-live] forall s int, id uuid.UUID :: 0 <= s && s <= rangeindex && has(this.vertices[s], id) ==> this.vertices[s][id] != nil && istype(this.vertices[s][id], hnswVertex) && allocated(this.vertices[s][id]) && this.vertices[s][id].deleted == 0
 //@ loop 3
 //@ invariant [fresh-prefix] forall s int :: 0 <= s && s <= rangeindex + 1 ==> this.vertices[s] != nil && fresh(this.vertices[s]) && allocated(this.vertices[s])
 //@ invariant [distinct] forall s int, t int :: 0 <= s && s < t && t <= rangeindex + 1 ==> this.vertices[s] != this.vertices[t]
 //@ invariant [counter] this.bytesSize == gbytes && this.config != nil
 //@ invariant [shard] verticesShard != nil && verticesShard == this.vertices[rangeindex + 1] && fresh(verticesShard)
+//@ invariant [C01 loaded-live] forall s int, id uuid.UUID :: 0 <= s && s <= rangeindex + 1 && has(this.vertices[s], id) ==> this.vertices[s][id] != nil && istype(this.vertices[s][id], hnswVertex) && allocated(this.vertices[s][id]) && this.vertices[s][id].deleted == 0
